@@ -1,11 +1,148 @@
 package main
 
 import (
+	"flag"
 	"fmt"
+	"go/token"
+	"os"
+	"strings"
 
-	_ "golang.org/x/tools/go/packages"
-	_ "golang.org/x/tools/go/ssa"
-	_ "golang.org/x/tools/go/ssa/ssautil"
+	"flytsa/internal/eng"
+	"flytsa/internal/load"
+	"flytsa/internal/rules"
+
+	"golang.org/x/tools/go/ssa"
 )
 
-func main() { fmt.Println("flytsa") }
+func main() {
+	if len(os.Args) < 2 {
+		fmt.Fprintln(os.Stderr, "usage: flytsa <check|explain|dump> ...")
+		os.Exit(2)
+	}
+	switch os.Args[1] {
+	case "check":
+		check(os.Args[2:])
+	case "explain":
+		explain(os.Args[2:])
+	case "dump":
+		dump(os.Args[2:])
+	case "dbgrun":
+		dbgrun(os.Args[2:])
+	default:
+		fmt.Fprintln(os.Stderr, "unknown command", os.Args[1])
+		os.Exit(2)
+	}
+}
+
+func dbgrun(args []string) {
+	fs := flag.NewFlagSet("dbgrun", flag.ExitOnError)
+	dir := fs.String("dir", "/repo", "repository")
+	all := fs.Bool("all", false, "print discharged obligations too")
+	fs.BoolVar(&rules.DebugStates, "states", false, "print state counts")
+	fs.StringVar(&rules.DebugFn, "keyfn", "", "print state keys at this function's block")
+	fs.IntVar(&rules.DebugBlock, "keyblock", 0, "block index for -keyfn")
+	fs.Parse(args)
+	p, err := load.Load(load.Options{Dir: *dir})
+	if err != nil {
+		fmt.Fprintln(os.Stderr, err)
+		os.Exit(2)
+	}
+	r := rules.NewRoles(p)
+	fmt.Println("missing anchors:", r.Missing)
+	res := rules.AnalyzeRun(p, r, 4)
+	fmt.Printf("stats: %+v\n", res.Stats)
+	for _, o := range res.Col.List() {
+		if len(o.Fails) == 0 {
+			if *all {
+				fmt.Printf("ok   %-8s %-50s n=%d %v\n", o.Rule, o.Construct, o.Instances, o.Sites)
+			}
+			continue
+		}
+		fmt.Printf("FAIL %-8s %-50s n=%d\n", o.Rule, o.Construct, o.Instances)
+		for _, f := range o.Fails {
+			fmt.Printf("      %s %s: %s\n", f.Kind, f.Pos, f.Msg)
+			if len(f.Path) > 0 {
+				n := len(f.Path)
+				lo := 0
+				if n > 14 {
+					lo = n - 14
+				}
+				fmt.Printf("        path: ...%s\n", strings.Join(f.Path[lo:], " > "))
+			}
+		}
+	}
+}
+
+func tokenPos() token.Position { return token.Position{} }
+
+type traceMon struct{}
+type traceState struct{}
+
+func (traceState) Key() string                                   { return "" }
+func (t traceState) Rename(func(*eng.Term) *eng.Term) eng.MState { return t }
+func (traceState) Terms() []*eng.Term                            { return nil }
+func (traceMon) Name() string                                    { return "trace" }
+func (traceMon) Init() eng.MState                                { return traceState{} }
+func (traceMon) OnEvent(c *eng.Ctx, ms eng.MState, ev *eng.Event) eng.MState {
+	var parts []string
+	for _, a := range ev.Args {
+		parts = append(parts, a.Pretty())
+	}
+	var res []string
+	for _, a := range ev.Results {
+		res = append(res, a.Pretty())
+	}
+	extra := ""
+	if ev.Cond != nil {
+		extra = fmt.Sprintf(" cond=%s taken=%v decided=%v", ev.Cond.Pretty(), ev.Taken, ev.Decided)
+	}
+	if ev.Addr != nil {
+		extra += " addr=" + ev.Addr.Pretty()
+	}
+	if ev.Val != nil {
+		extra += " val=" + ev.Val.Pretty()
+	}
+	fmt.Printf("  [%s] %s %s(%s) -> %s%s  @%d\n", ev.Kind, ev.Class, "", strings.Join(parts, ", "), strings.Join(res, ", "), extra, ev.Pos.Line)
+	return ms
+}
+
+func dump(args []string) {
+	fs := flag.NewFlagSet("dump", flag.ExitOnError)
+	root := fs.String("root", "Run", "root function (Func or Type.Method)")
+	dir := fs.String("dir", "/repo", "repository")
+	trace := fs.Bool("trace", false, "print events")
+	dbg := fs.Int("dbgblock", -1, "print state keys at this root block")
+	fs.Parse(args)
+	p, err := load.Load(load.Options{Dir: *dir})
+	if err != nil {
+		fmt.Fprintln(os.Stderr, err)
+		os.Exit(2)
+	}
+	var fn *ssa.Function
+	if i := strings.Index(*root, "."); i >= 0 {
+		fn = p.Method((*root)[:i], (*root)[i+1:])
+	} else {
+		fn = p.Func(*root)
+	}
+	if fn == nil {
+		fmt.Fprintln(os.Stderr, "no such function")
+		os.Exit(2)
+	}
+	cfg := eng.Config{Prog: p.Prog, Pkg: p.SSA, Fset: p.Fset, Root: fn, Debug: *dbg >= 0, DebugBlock: *dbg}
+	if *trace {
+		cfg.Monitors = []eng.Monitor{traceMon{}}
+	}
+	e := eng.New(cfg)
+	e.Run()
+	fmt.Printf("states=%d transitions=%d forks=%d events=%d returns=%d\n", e.States, e.Trans, e.Forks, e.Events, len(e.Returns))
+	for _, r := range e.Returns {
+		var vs []string
+		for _, v := range r.Vals {
+			vs = append(vs, v.Pretty())
+		}
+		fmt.Printf("RETURN @%d panic=%v: %s\n   facts: %s\n", r.Pos.Line, r.Panic, strings.Join(vs, " , "), strings.Join(r.State.Facts().List(), " ; "))
+	}
+	for _, pr := range e.SortedProblems() {
+		fmt.Printf("PROBLEM %s: %s @%s:%d\n", pr.Kind, pr.Msg, pr.Pos.Filename, pr.Pos.Line)
+	}
+}
